@@ -14,7 +14,7 @@ DYN = "DynClause hook (run-time sized clause tuple) is trusted to deconstruct it
 CHECKS = {
  "C01": dict(engine=E1, cat="exploration", ref="§4 C01",
    technique="property-based testing: generated clause lists and call histories, differential against a reference model (first declared match), proptest shrinking",
-   text="Generated search: tens of thousands (quick) to ~1.6 million (thorough) random unordered clause lists with arbitrary accept masks and histories are executed on the real mock and on an independent reference model; every call's returned tag (identifying pattern and segment), side effects and the verification message are compared. A second sub-check rewrites every pattern to an exact expectation derived from the model's counts so any miscount flips the verification message.",
+   text="Generated search: tens of thousands (quick) to ~1.6 million (thorough) random unordered clause lists with arbitrary accept masks and histories are executed on the real mock and on an independent reference model; every call's returned tag (identifying pattern and segment), side effects and the verification message are compared. A second sub-check rewrites every pattern to an exact expectation derived from the model's counts so any miscount flips the verification message. The thorough tier repeats both against the no_std+spin-lock and the no-mutex builds of the library and adds a coverage-guided libFuzzer campaign (oracle inside the target).",
    note=DYN),
  "C02": dict(engine=E1, cat="exploration", ref="§4 C02",
    technique="property-based testing: generated quantifier chains x response kinds x match counts, differential against segment arithmetic of a reference model",
@@ -30,8 +30,8 @@ CHECKS = {
    note=DYN + "; behaviour after the first deviation is not compared"),
  "C07": dict(engine=E1, cat="exploration", ref="§4 C07",
    technique="exhaustive enumeration of the resolution decision table plus property-based random scenarios; oracle = reference model of the documented fall-through order, side-effect log of real functions / default bodies",
-   text="The full table {strict,partial} x {unmentioned, unmatched, matched} x method facts {real fn, default body, both, neither; &self/&mut self} x {unordered, ordered} x every argument x position is enumerated; random scenarios with ~45% unmentioned methods add histories. Outcomes, the side-effect log (body/function really ran, once) and unchanged counts (two-segment chains shift a tag on any stray count) are compared with the model.",
-   note=DYN + "; partial-by-default methods exist only in the bundled TerminationMock (covered by C09's report() runs)"),
+   text="The full table {strict,partial} x {unmentioned, unmatched, matched} x method facts {real fn, default body, both, neither; &self/&mut self} x {unordered, ordered} x every argument x position is enumerated; random scenarios with ~45% unmentioned methods add histories. Outcomes, the side-effect log (body/function really ran, once) and unchanged counts (two-segment chains shift a tag on any stray count) are compared with the model. The partial-by-default method of the crate (Termination::report) is enumerated separately: unmentioned it runs the real behaviour in strict and partial mocks, mentioned it returns the configured value.",
+   note=DYN + "; thorough tier repeats the checks against the no_std+spin-lock build of the library"),
  "C18": dict(engine=E1, cat="exploration", ref="§4 C18",
    technique="metamorphic property-based testing: pairs of real runs related by clause permutation, call routing through clones, twin mocks, generic instantiation pairs",
    text="For generated scenarios of the C01-C04 spaces the transformed run (clauses permuted across methods, calls routed through clones, a twin mock interleaved) must produce identical per-call outcomes and an identical multiset of verification lines; two instantiations of a generic trait and of a generic method with overlapping patterns are checked against the model as distinct methods.",
@@ -39,7 +39,7 @@ CHECKS = {
 
  "C08": dict(engine="E1 + real threads (harness/rt)", cat="fault_enumeration", ref="§4 C08",
    technique="fault-injecting property-based testing: generated histories with every reachable mock-induced error kind at any position, on clones, on other threads (caught or propagated to join), concurrent bursts; invariant over the history + reference model for the negative controls",
-   text="Every error kind reachable through the public API (no mock implementation, no matcher function, no matching patterns, no output, three call-order errors, value returned twice, explicit panic, cannot unmock, no default impl) is injected at generated positions of generated histories, through the original or clones, on the creator thread or spawned threads with the panic swallowed or propagated; then verification (drop / verify() / report()) must fail and its text must contain every captured error text (multiset). Panicking answer functions and matchers are negative controls: the verdict must then equal the model's count-based verdict.",
+   text="Every error kind reachable through the public API (no mock implementation, no matcher function, no matching patterns, no output, three call-order errors, value returned twice, explicit panic, cannot unmock, no default impl) is injected at generated positions of generated histories, through the original or clones, on the creator thread or spawned threads with the panic swallowed or propagated; then verification (drop / verify() / report()) must fail and its text must contain every captured error text (multiset). Panicking answer functions and matchers are negative controls: the verdict must then equal the model's count-based verdict. All interleavings of 2-3 threads whose calls all err (racing for the shared error list, at lock granularity) are enumerated with the controlled scheduler; the thorough tier adds a libFuzzer campaign over the same scenario space.",
    note=DYN + "; std build only (the documented no_std behaviour is not run)"),
  "C09": dict(engine="lifecycle state machine in a crash-isolated worker (harness/rt)", cat="exploration", ref="§4 C09",
    technique="stateful property-based testing: generated lifecycle event sequences vs a lifecycle state-machine model, executed in a crash-isolated worker process, sequence shrinking",
@@ -47,7 +47,7 @@ CHECKS = {
    note="panic classes are recognised by the documented phrases (unknown wording is compared as panic/no panic only); report() on a clone is not generated"),
  "C10": dict(engine="E3 controlled scheduler (harness/rt/src/sched.rs)", cat="exploration", ref="§4 C10",
    technique="schedule enumeration and schedule fuzzing of the real code: a token-passing scheduler driven by yield hooks at every atomic operation and lock acquisition; exhaustive depth-first enumeration for small thread configurations, proptest-generated choice sequences for larger ones, 16-thread stress; oracle = multiset of responses equals positions 1..N of the sequential reference model",
-   text="The real runtime runs on real OS threads, one at a time, the next thread being chosen at every yield point by a schedule (a Vec<u8>, which is also the replay file). All schedules of (threads x calls) in {(2,1),(2,2),(3,1),(2,3)} (thorough: also (3,2),(4,1)) are enumerated for an unordered response chain, an ordered sequence (as many slots as calls, and one fewer) and both mixed; larger configurations are sampled; a 16-thread unsynchronised stress run repeats the oracle.",
+   text="The real runtime runs on real OS threads, one at a time, the next thread being chosen at every yield point by a schedule (a Vec<u8>, which is also the replay file). All schedules of (threads x calls) in {(2,1),(2,2),(3,1),(2,3)} (thorough: also (3,2),(4,1)) are enumerated for an unordered response chain, an ordered sequence (as many slots as calls, and one fewer) and both mixed, each through clones and through one shared &Unimock handle; larger configurations are sampled; a 16-thread unsynchronised stress run repeats the oracle.",
    note="yield points exist only at unimock's own atomics and lock acquisitions (cfg unimock_verif); sequentially consistent interleavings only; std::sync::Mutex / Arc internals are trusted"),
  "C11": dict(engine="E4 fault table: worker thread + fresh child process per cell (harness/rt)", cat="fault_enumeration", ref="§4 C11",
    technique="fault enumeration: panic origin x instance topology x expectation state, every cell run on a thread of a crash-isolated worker and as the main thread of a fresh child process; oracle = exit status 101 (not SIGABRT), exactly one panic report, first message is the origin's",
@@ -64,7 +64,7 @@ CHECKS = {
 
  "C05": dict(engine="E2 program generation (harness/progen)", cat="exploration", ref="§4 C05",
    technique="grammar-based program generation (proptest strategy over trait ASTs) -> generated crate -> observations vs generator-side expectation, manual shrinking across the compile boundary",
-   text="Hundreds (quick) to ~16k (thorough) generated #[unimock] traits (7 receiver kinds x 0-5 parameters of 15 kinds with adjacent parameters often sharing a type x 6 return kinds x sync/async fn/impl Future x module/flattened/hidden api x method position, a twin method of identical signature next to it) are compiled against /repo and executed: a logging matcher and a logging, mutating, injective answer function must have seen exactly the caller's arguments in declaration order, the result and the caller's &mut variables must be what the answer produced, futures must not evaluate before / without a poll.",
+   text="Hundreds (quick) to ~16k (thorough) generated #[unimock] traits (7 receiver kinds x 0-5 parameters of 15 kinds with adjacent parameters often sharing a type x 6 return kinds x sync/async fn/impl Future/#[async_trait] x module/flattened/hidden api x method position, a twin method of identical signature next to it) are compiled against /repo and executed: a logging matcher and a logging, mutating, injective answer function must have seen exactly the caller's arguments in declaration order, the result and the caller's &mut variables must be what the answer produced, futures must not evaluate before / without a poll.",
    note="shapes rustc rejects are outside the property's domain (counted in evidence; > 5% rejected = exit 2); generated values' Debug strings are the channel of observation"),
  "C06": dict(engine="E2 program generation (harness/progen)", cat="exploration", ref="§4 C06",
    technique="grammar-based generation of matching! patterns, exhaustive evaluation over a finite argument domain, oracle = own pattern interpreter cross-checked by a native Rust match in the generated program",
